@@ -1340,12 +1340,31 @@ def reconcile_render(ctx, cases, impl_out, model_out, pid):
 
 # --------------------------------------------------------------------------- the theorem's fragment
 def frag_num(rng, d):
-    """numeric tree of the Lean fragment NumU over the integer columns"""
+    """numeric tree of the Lean fragment NumU over the integer columns: + - * %, unary minus,
+    scalar subquery, cast(Integer / Numeric), coalesce, searched and simple case"""
     if d <= 0 or rng.random() < 0.2:
-        return ["col", rng.choice(["ia", "ib", "ic"])] if rng.random() < 0.7 else ["li", rng.choice(INT_LITS)]
-    k = rng.choice(["add", "sub", "mul", "mod", "neg", "add", "mul"])
+        x = rng.random()
+        if x < 0.6:
+            return ["col", rng.choice(["ia", "ib", "ic"])]
+        if x < 0.9:
+            return ["li", rng.choice(INT_LITS)]
+        return ["subq", ["col", rng.choice(["ia", "ib", "ic"])]]
+    k = rng.choice(["add", "sub", "mul", "mod", "neg", "add", "mul", "case", "case", "cast", "coalesce"])
     if k == "neg":
         return ["neg", frag_num(rng, d - 1)]
+    if k == "cast":
+        return ["cast", rng.choice(["int", "num"]), frag_num(rng, d - 1)]
+    if k == "coalesce":
+        return ["coalesce", [frag_num(rng, d - 1) for _ in range(rng.choice([2, 2, 3]))]]
+    if k == "case":
+        n = rng.choice([1, 2, 2, 3])
+        if rng.random() < 0.6:
+            value = None
+            whens = [[frag_bool(rng, min(d - 1, 2)), frag_num(rng, d - 1)] for _ in range(n)]
+        else:
+            value = frag_num(rng, d - 1)
+            whens = [[frag_num(rng, min(d - 1, 1)), frag_num(rng, d - 1)] for _ in range(n)]
+        return ["case", value, whens, frag_num(rng, d - 1) if rng.random() < 0.6 else None]
     return [k, frag_num(rng, d - 1), frag_num(rng, d - 1)]
 
 
